@@ -124,19 +124,21 @@ Record sig_case := mksc {
   sc_now0 : Z; sc_now1 : Z;                        (* time.Now().Unix() before / after the call *)
   sc_decryptors : list bytes;
   sc_req : request;
-  sc_rsa : list (bytes * option bytes);            (* secret text |-> DecryptBase64 result *)
+  sc_rsa : list (bytes * option bytes);            (* one RSA block (raw bytes) |-> its PKCS#1 v1.5 decryption under the test key *)
+  sc_rsak : nat;                                   (* the decryptor's bytesLimit (key size in bytes) *)
   sc_b64 : list (bytes * option bytes);
   sc_mac : list ((bytes * bytes) * bytes);         (* (key, content) |-> HmacBase64 *)
   sc_sha : list (bytes * bytes);
   sc_url : option (bytes * bytes);                 (* url.Parse of the X-Request-Uri value *)
-  sc_decbody : dec_res;                            (* decryptBody(key, r): nil / error / panic *)
+  sc_decbody : dec_res;                            (* base64 + ECB decryption of the body bytes under the announced key *)
   (* the request as its maker describes it (for the Spec) *)
   sc_q : signed_request;
   sc_enc : bool;                                   (* announced type=1 and a body is present *)
   sc_skip_spec : bool;                             (* header shape the statement does not speak about *)
   (* observed *)
   sc_status : Z; sc_ran : bool; sc_hdr : N;        (* Signature response header: 0 none 1 wrong-time 2 invalid *)
-  sc_panic : bool                                  (* the middleware panicked *)
+  sc_panic : bool;                                 (* the middleware panicked *)
+  sc_seen : N                                      (* body the handler read: 0 as sent, 1 its decryption, 2 anything else *)
 }.
 
 Definition opt_bytes_tab (t : list (bytes * option bytes)) (k : bytes) : option bytes :=
@@ -154,15 +156,27 @@ Definition sout_eqb (c : sig_case) (o : sout) : bool :=
   Bool.eqb (s_panic o) (sc_panic c) && Bool.eqb (s_ran o) (sc_ran c) &&
   (if sc_panic c then true else (s_status o =? sc_status c) && (hdr_code (s_hdr o) =? sc_hdr c)%N).
 
+Definition sig_rsa (c : sig_case) (s : bytes) : option bytes :=
+  decrypt_base64 (opt_bytes_tab (sc_b64 c)) (sc_rsak c) (opt_bytes_tab (sc_rsa c)) s.
+
 Definition sig_gate (c : sig_case) (now : Z) : sout :=
-  content_security_gate (sc_decryptors c) (fun _ s => opt_bytes_tab (sc_rsa c) s) (opt_bytes_tab (sc_b64 c))
-    (mac_of c) (sha_of c) (fun _ => sc_url c) (fun _ _ => sc_decbody c)
+  content_security_gate (sc_decryptors c) (fun _ s => sig_rsa c s) (opt_bytes_tab (sc_b64 c))
+    (mac_of c) (sha_of c) (fun _ => sc_url c) (decrypt_body (fun _ _ => sc_decbody c))
     (sc_strict c) (sc_tol c) now (sc_req c).
+
+Definition sig_sees_dec (c : sig_case) (now : Z) : bool :=
+  sees_decrypted_body (sc_decryptors c) (fun _ s => sig_rsa c s) (opt_bytes_tab (sc_b64 c))
+    (mac_of c) (sha_of c) (fun _ => sc_url c) (decrypt_body (fun _ _ => sc_decbody c))
+    (sc_tol c) now (sc_req c).
 
 (* the wall clock may tick during the call: the observed answer must be the model's for one of the
    two readings *)
+Definition seen_ok (c : sig_case) (dec : bool) : bool :=
+  if sc_ran c then (sc_seen c =? (if dec then 1 else 0))%N else true.
+
 Definition sig_model_ok (c : sig_case) : bool :=
-  sout_eqb c (sig_gate c (sc_now0 c)) || sout_eqb c (sig_gate c (sc_now1 c)).
+  (sout_eqb c (sig_gate c (sc_now0 c)) && seen_ok c (sig_sees_dec c (sc_now0 c))) ||
+  (sout_eqb c (sig_gate c (sc_now1 c)) && seen_ok c (sig_sees_dec c (sc_now1 c))).
 
 Definition guarded (m : bytes) : bool :=
   existsb (fun s => bytes_eqb m (bytes_of_string s)) guarded_methods.
@@ -173,7 +187,11 @@ Definition sig_spec_at (c : sig_case) (now : Z) : bool :=
     let adm := sig_accept (mac_of c) (sha_of c) (sc_tol c) now (sc_q c) in
     if adm then
       (* accepted: the handler runs (behind the body decryption when the request announces one) *)
-      if sc_enc c then Bool.eqb (sc_ran c) (match sc_decbody c with DecOk => true | _ => false end) else sc_ran c
+      (* ... only bodies ABOVE the size limit are refused; an admitted one is handed over decrypted *)
+      if sc_enc c then
+        Bool.eqb (sc_ran c) (negb (enc_body_limit <? r_clen (sc_req c)) && match sc_decbody c with DecOk => true | _ => false end) &&
+        (negb (sc_ran c) || (sc_seen c =? 1)%N)
+      else sc_ran c
     else if sc_strict c then negb (sc_ran c) && (sc_status c =? 403)
     else sc_ran c.
 
@@ -247,7 +265,7 @@ Definition grp_rsa (c : grp_req) (k : N) (s : bytes) : option bytes :=
 
 Definition grp_gate (groups : list group) (c : grp_req) (now : Z) : option sout :=
   let s := gr_sig c in
-  engine_gate (grp_rsa c) (opt_bytes_tab (sc_b64 s)) (mac_of s) (sha_of s) (fun _ => sc_url s) (fun _ _ => sc_decbody s)
+  engine_gate (grp_rsa c) (opt_bytes_tab (sc_b64 s)) (mac_of s) (sha_of s) (fun _ => sc_url s) (decrypt_body (fun _ _ => sc_decbody s))
     groups (gr_target c) now (sc_req s).
 
 Definition grp_model_ok (c : grp_case) : bool :=
@@ -272,9 +290,9 @@ Definition grp_spec_ok (c : grp_case) : bool :=
         let q := sc_q s in
         let q' := mkq (q_decrypts q && configured_for g (gr_fp rq) (gr_enckey rq)) (q_key q) (q_ts_text q) (q_ts q)
                       (q_sig q) (q_method q) (q_path q) (q_query q) (q_body q) in
-        sig_spec_ok (mksc (g_strict g) (g_tol g) (sc_now0 s) (sc_now1 s) (sc_decryptors s) (sc_req s) (sc_rsa s)
+        sig_spec_ok (mksc (g_strict g) (g_tol g) (sc_now0 s) (sc_now1 s) (sc_decryptors s) (sc_req s) (sc_rsa s) (sc_rsak s)
                           (sc_b64 s) (sc_mac s) (sc_sha s) (sc_url s) (sc_decbody s) q' (sc_enc s) (sc_skip_spec s)
-                          (sc_status s) (sc_ran s) (sc_hdr s) (sc_panic s))
+                          (sc_status s) (sc_ran s) (sc_hdr s) (sc_panic s) (sc_seen s))
     end) (gc_reqs c).
 
 (* ------------------------------------------------------------------ RPC through the interceptors *)
@@ -357,7 +375,8 @@ Definition ejwt_spec_ok (c : ejwt_case) : bool :=
 (* ------------------------------------------------------------------ RPC histories with floods of unknown apps *)
 Inductive rop :=
 | OCall (s : rstep)
-| OFlood (n : N) (app0 token : N) (store : list (N * N)) (code : Z).
+| OFlood (n : N) (app0 token : N) (store : list (N * N)) (code : Z)
+| OBurst (n : N) (s : rstep).     (* n identical calls, all observed with rs_code s *)
   (* n calls for the fresh apps app0, app0+1, ... (no stored token, healthy store), all observed with this code *)
 
 Record rpcf_case := mkrf { rf_strict : bool; rf_ops : list rop }.
@@ -377,6 +396,10 @@ Fixpoint rpcf_rows (strict : bool) (cache : list (N * N)) (ops : list rop) : boo
       (code =? rs_code s) && rpcf_rows strict cache' r
   | OFlood n app0 token store code :: r =>
       let '(cache', ok, _) := N.iter n (flood_step strict store token code) (cache, true, app0) in
+      ok && rpcf_rows strict cache' r
+  | OBurst n s :: r =>
+      let '(cache', ok) := N.iter n (fun st => let '(cache', code) := authenticate strict (fst st) (store_of s) (rs_md s) in
+                                               (cache', snd st && (code =? rs_code s))) (cache, true) in
       ok && rpcf_rows strict cache' r
   end.
 
@@ -401,6 +424,15 @@ Fixpoint rpcf_spec_rows (strict : bool) (memo : list (N * N)) (ops : list rop) :
   | OFlood n app0 token store code :: r =>
       let '(memo', ok, _) := N.iter n (flood_spec_step strict store token code) (memo, true, app0) in
       ok && rpcf_spec_rows strict memo' r
+  | OBurst n s :: r =>
+      (* a burst is n copies of one call: same verdict each time (the first one decides the memo) *)
+      match creds (rs_md s) with
+      | None => negb (rs_code s =? 0) && rpcf_spec_rows strict memo r
+      | Some (app, token) =>
+          let st := stored_of s app in
+          ((n =? 0)%N || Bool.eqb (rs_code s =? 0) (rpc_accept strict true (rpc_view memo st app) token)) &&
+          rpcf_spec_rows strict (if (n =? 0)%N then memo else rpc_memo memo st app) r
+      end
   end.
 
 Definition rpcf_spec_ok (c : rpcf_case) : bool := rpcf_spec_rows (rf_strict c) [] (rf_ops c).
